@@ -88,4 +88,20 @@ def generate():
     items.append('def writePushFlags : String := "%s"' % re.sub(r"\s+", "", m.group(1)))
     m = _need(r"try_pop_n\s*<([^>]*)>", kw, "try_pop_n template arguments")
     items.append('def popFlags : String := "%s"' % re.sub(r"\s+", "", m.group(1)))
+    # push flags of close(): no template arguments = the queue's defaults <true, true, true>
+    cl = function_body(app, r"AsyncFileAppender::close\s*\(")
+    _need(r"push\s*(?:<[^>]*>)?\s*\(", cl, "push in close")
+    m = re.search(r"push\s*<([^>]*)>", cl)
+    close_flags = re.sub(r"\s+", "", m.group(1)) if m else "true,true,true"
+    items.append('def closePushFlags : String := "%s"' % close_flags)
+    # queue pairing rule (bounded_queue.h): a producer that sleeps on the slot futex (USE_FUTEX_WAIT, 2nd
+    # push argument) is only woken by a consumer that pops with USE_FUTEX_WAKE (2nd try_pop_n argument)
+    def flag(flags, i, what):
+        a = flags.split(",")
+        if len(a) <= i or a[i] not in ("true", "false"):
+            raise ExtractError("log: cannot read flag %d of %s: %r" % (i, what, flags))
+        return "true" if a[i] == "true" else "false"
+    items.append("def writePushFutexWait : Bool := %s" % flag(re.sub(r"\s+", "", re.search(r"push\s*<([^>]*)>", wr).group(1)), 1, "write push"))
+    items.append("def closePushFutexWait : Bool := %s" % flag(close_flags, 1, "close push"))
+    items.append("def popFutexWake : Bool := %s" % flag(re.sub(r"\s+", "", re.search(r"try_pop_n\s*<([^>]*)>", kw).group(1)), 1, "try_pop_n"))
     emit("Log", items)
